@@ -109,8 +109,20 @@ def check_graph(col: Collector, nodes, edges, *, keys=None, sub_check="graph", r
         # the "unknown" class is an unknown *ancestor*
         anc = {n: anc.get(n, set()) for n in nodes}
     inp = dict(nodes=list(nodes), edges=[list(e) for e in edges], keys=None if keys is None else list(keys))
+    # dependencies may be handed over as plain (mutable) sets: the definitions must come back untouched
+    mutable = (len(edges) + len(nodes)) % 3 == 0
+    given = {k: (set(v) if mutable else frozenset(v)) for k, v in anc.items()}
+    given_copy = {k: frozenset(v) for k, v in given.items()}
     try:
-        dag = VariablesDAG(_mk_vars(nodes), direct_ancestors={k: frozenset(v) for k, v in anc.items()})
+        dag = VariablesDAG(_mk_vars(nodes), direct_ancestors=given)
+        if {k: frozenset(v) for k, v in given.items()} != given_copy:
+            col.fail(sub_check, "definitions-modified-by-construction", inp, observed={k: sorted(v) for k, v in given.items()},
+                     expected={k: sorted(v) for k, v in given_copy.items()})
+            return info
+        if {k: frozenset(v) for k, v in dag.direct_ancestors.items()} != given_copy:
+            col.fail(sub_check, "reported-direct-ancestors-differ-from-definitions", inp, observed={k: sorted(v) for k, v in dag.direct_ancestors.items()},
+                     expected={k: sorted(v) for k, v in given_copy.items()})
+            return info
     except ValueError as e:
         if info["valid"]:
             col.fail(sub_check, f"valid-graph-refused:{exc_bucket(e)}", inp, observed=repr(e), expected="construction succeeds")
